@@ -216,6 +216,9 @@ func (c *ConfigFile) validateCommonFields() (*ConfigFile, error) {
 	if len(c.Stages) == 0 {
 		return nil, errors.New("missing stages")
 	}
+	if *c.Limits.Concurrency < 1 {
+		return nil, fmt.Errorf("concurrency %d can't be less than 1", *c.Limits.Concurrency)
+	}
 
 	if c.Limits.MaxFailures == nil {
 		maxFailures := uint64(0)
@@ -410,6 +413,9 @@ func (s *Stage) validateUsersStage(idx int, defaults Stage) (*Stage, error) {
 		}
 
 		s.Concurrency = defaults.Concurrency
+	}
+	if *s.Concurrency < 1 {
+		return nil, fmt.Errorf("concurrency %d can't be less than 1 at stage %d", *s.Concurrency, idx)
 	}
 	if s.Parameters == nil {
 		if defaults.Parameters == nil {
